@@ -18,6 +18,10 @@ import (
 
 const decoderCap = 1024 * 1024 // consensus.maxMsgSizeBytes
 
+// one root cause, one key: a record whose payload is larger than the decoder's cap is written without complaint
+// and can then neither be read nor be searched past
+const keyOversize = "written-record-exceeds-decoder-cap(encoder-has-no-size-limit)"
+
 var castagnoli = crc32.MakeTable(crc32.Castagnoli)
 
 // frame is the reference framing: crc32c(payload) | len(payload) | payload, big endian.
@@ -143,6 +147,7 @@ type damage struct {
 	p        int    // records wholly before the first damaged / missing byte
 	midGroup bool   // bytes are missing in the middle of the stream (truncation of a file that is not the last)
 	none     bool   // the image is an undamaged record sequence
+	cut      bool   // the only damage is that the END of the stream is missing (crash, truncation of the last file)
 	desc     string
 }
 
@@ -326,7 +331,7 @@ func checkRead(L *layout, d damage, o readOut, from int, who string) []viol {
 			key = "decode:undamaged-log-not-fully-replayed"
 			switch {
 			case L.oversize:
-				key = "decode:written-record-exceeds-decoder-cap(encoder-has-no-size-limit)"
+				key = keyOversize
 			case !L.aligned:
 				key += ":file-boundary-inside-record"
 			}
@@ -401,17 +406,29 @@ func evalSearch(w cs.WAL, L *layout, d damage, h uint64, ignore bool, streamLen 
 		return append(vs, viol{"search:unwritten-marker-found:" + d.class, fmt.Sprintf("%s reports found on a %s image although no marker for height %d was written (%s)", who, d.class, h, d.desc)})
 	}
 	if !found {
-		if written && d.none {
+		// "found iff completely written" is decidable for a correct implementation whenever everything up to the
+		// end of the surviving bytes is intact: undamaged logs and logs whose END is missing. (After an altered
+		// byte the framing may be lost for good, so there only "never finds an unwritten marker" is required.)
+		if written && (d.none || d.cut) {
 			key := "search:complete-marker-not-found"
 			switch {
+			case L.oversize:
+				key = keyOversize
 			case !L.aligned:
 				key += ":file-starts-mid-record(rotate-without-flush)"
-			case L.oversize:
-				key += ":oversized-record-in-log"
+			case d.cut && !d.none:
+				key += ":torn-record-at-end-of-newer-file-aborts-search"
 			default:
 				key += ":record-aligned-files"
 			}
-			return append(vs, viol{key, fmt.Sprintf("%s = (found=false, err=%v) on an undamaged log in which the marker (record %d of %d) is completely written; files %s", who, serr, occ[0], len(L.recs), L.describeFiles())})
+			kind := "an undamaged log"
+			if !d.none {
+				kind = "a log whose end is cut off (" + d.desc + ")"
+			}
+			return append(vs, viol{key, fmt.Sprintf("%s = (found=false, err=%v) on %s in which the marker (record %d of %d complete records) is completely written; files %s", who, serr, kind, occ[0], len(L.recs), L.describeFiles())})
+		}
+		if written {
+			st["search-miss-for-complete-marker/"+d.class]++
 		}
 		return vs
 	}
@@ -429,7 +446,9 @@ func evalSearch(w cs.WAL, L *layout, d damage, h uint64, ignore bool, streamLen 
 		}
 	}
 	for i := range best {
-		best[i].key = "after-search:" + best[i].key
+		if best[i].key != keyOversize {
+			best[i].key = "after-search:" + best[i].key
+		}
 	}
 	return append(vs, best...)
 }
